@@ -394,7 +394,7 @@ fn used_sentences() -> Vec<Sentence<'static, 'static>> {
     v.push(Sentence::from_tokenized("ab/x/y/z c/p/q/r d/s/t/u efg/v/w/x").unwrap());
     v.push(Sentence::from_partial_annotation("a/x/y-b/z|c/p/q d/r/s/t|e/u").unwrap());
     let mut s = Sentence::from_tokenized("xy/k/l/m z/n/o/p").unwrap();
-    let _ = s.update_partial_annotation("a/t1/t2|b/t3/t4 c/t5#d");
+    let _ = s.update_partial_annotation("a/t1/t2|b/t3/t4 c#d");   // fails at `#`, after five tags have been read
     v.push(s);
     let mut s = Sentence::from_partial_annotation("a/x|b/y|c/z").unwrap();
     let _ = s.update_tokenized("a/t1/t2 b/t3/t4  c");
@@ -804,6 +804,18 @@ pub fn run_hist<'p>(
             }
         }
         "c02" => oracle_c02(&s, fails),
+        // the history ends with a prediction: "after prediction the tokens … start at character 0, end at the last character"
+        "c02p" => {
+            oracle_c02(&s, fails);
+            if !out.iter().any(|o| o.contains("panic")) {
+                let n = s.as_raw_text().chars().count();
+                let toks: Vec<(usize, usize)> = s.iter_tokens().map(|t| (t.start(), t.end())).collect();
+                let contiguous = toks.first().map(|t| t.0) == Some(0) && toks.last().map(|t| t.1) == Some(n) && toks.windows(2).all(|w| w[0].1 == w[1].0);
+                if !contiguous || s.boundaries().iter().any(|b| *b == CharacterBoundary::Unknown) {
+                    fails.push(("C02".into(), format!("after a prediction the tokens {toks:?} are not a partition of the {n} characters (labels {})", labels_str(&s))));
+                }
+            }
+        }
         "c03rt" => oracle_c03rt(&s, fails),
         "c03idem" => {
             if out.first().map(String::as_str) == Some("ok") {
